@@ -195,6 +195,22 @@ func (r *Recorder) Violation(t TB, sig, msg string, c any) bool {
 		r.mu.Unlock()
 		return false
 	}
+	if os.Getenv("VERIF_COLLECT") != "" {
+		// triage mode (never used by registered commands): enumerate signatures without stopping
+		r.mu.Lock()
+		r.res.Counters["violation:"+sig]++
+		first := r.res.Counters["violation:"+sig] == 1
+		r.mu.Unlock()
+		if first {
+			if len(msg) > 700 {
+				msg = msg[:700]
+			}
+			r.mu.Lock()
+			r.res.Samples = append(r.res.Samples, map[string]any{"kind": "violation", "signature": sig, "message": msg})
+			r.mu.Unlock()
+		}
+		return false
+	}
 	raw, _ := json.Marshal(c)
 	f := Failure{Signature: sig, Message: msg, Case: raw}
 	r.mu.Lock()
